@@ -1001,9 +1001,15 @@ fn one(st: &mut St, engine: &mut Engine, toks: &[&str], depth: usize) -> String 
                 (Ok(h), Ok(c)) => (h, c),
                 _ => return "bad parse".into(),
             };
-            if st.copies.remove(&(h, c)).is_none() {
-                return "bad no-copy".into();
+            // boxes and mutable vectors live on the collected heap: a handle stored there goes away when
+            // the collector reuses the slot, not when the script lets go of it.  Such a copy cannot be
+            // dropped at a definite point, so the protocol does not allow it.
+            match st.copies.get(&(h, c)) {
+                Some(cp) if cp.place == "box" || cp.place == "mvector" => return "bad sticky".into(),
+                Some(_) => {}
+                None => return "bad no-copy".into(),
             }
+            st.copies.remove(&(h, c));
             match run_class(engine, format!("(set! {} #f)", cname(h, c))) {
                 Ok(_) => "ok".into(),
                 Err(e) => e,
